@@ -610,6 +610,11 @@ func (x *Exec) ghostSort(t string) *Sort {
 		return ArrSort(x.ar.idxSort(), x.byteSort())
 	case "id", "error":
 		return IntSort
+	case "map":
+		// abstract finite map: key id -> object id (0 = absent)
+		return ArrSort(IntSort, IntSort)
+	case "set":
+		return ArrSort(IntSort, BoolSort)
 	}
 	if ii, ok := basicByName(t); ok {
 		return x.ar.sortOfInt(ii)
@@ -805,6 +810,35 @@ func (c *cctx) evalCall(e *ast.CallExpr) cval {
 			return c.boolVal(True)
 		}
 		return c.boolVal(x.stringEq(c.st, sa, sb))
+	case "strid":
+		// strid(s): the key id of a string (as used for string-keyed maps)
+		a := c.eval(arg(0))
+		k, ok := x.keyID(c.st, types.Typ[types.String], a.v)
+		if !ok {
+			c.fail("strid wants a string")
+			return c.boolVal(True)
+		}
+		return cval{Sc{k}, nil}
+	case "has":
+		// has(m, k): key k is present in Go map m
+		m := c.eval(arg(0))
+		kv := c.eval(arg(1))
+		mt, ok := m.t.Underlying().(*types.Map)
+		if m.t == nil || !ok {
+			c.fail("has wants a map")
+			return c.boolVal(True)
+		}
+		k, ok := x.keyID(c.st, mt.Key(), kv.v)
+		if !ok {
+			if c.isInt(kv) {
+				k, ok = c.math(kv, arg(1)), true
+			}
+		}
+		if !ok {
+			c.fail("has: unsupported key")
+			return c.boolVal(True)
+		}
+		return c.boolVal(Select(Select(x.mapHasArr(c.st), x.scalarOf(m.v, m.t)), k))
 	case "field":
 		// field(x, "T.f"): field f of the object x points to, viewed as a *T of
 		// the contract's package (for values held in interface variables)
@@ -850,7 +884,7 @@ func (c *cctx) evalCall(e *ast.CallExpr) cval {
 		i := c.idxOf(c.math(c.eval(arg(1)), arg(1)))
 		v := c.eval(arg(2))
 		var vt *Term
-		if as.T.S.Elem.Eq(x.byteSort()) {
+		if as.T.S.Elem.Eq(x.byteSort()) && c.isInt(v) {
 			m := c.math(v, arg(2))
 			if x.ar.BV {
 				vt = BVExtract(7, 0, m)
